@@ -54,8 +54,8 @@ import time
 
 import z3
 
-from vf.pyvc import (And, Arr, Contract, If, Implies, Loop, Max, Min, NS, Not, Opaque, Or, PyRaise, R, Unsupported, V, I, Z,
-                     is_int, is_num, is_z3, register, REGISTRY)
+from vf.pyvc import (And, Arr, Contract, If, Implies, Loop, Max, Min, NS, Not, Opaque, Or, PyRaise, R, Unsupported, V, Z,
+                     is_int, is_num, is_z3, register)
 from vf import lemmas
 import vf.pyvc as P
 
@@ -373,7 +373,7 @@ class BipartiteSpectralFn(ShortcutBase):
     spectrum, P1), the approximate route exactly when a threshold is given and the size of the chosen side reaches it"""
 
     target = f"{APX}::gen_bipartite_spectral_fn.bipartite_spectral_fn"
-    floor = 300
+    floor = 100
 
     def inputs(self, cx, case):
         d = self.base_inputs(cx, case)
@@ -494,7 +494,7 @@ class MutinfSubsys(PairBase):
     state, the dims and approx_thresh / **approx_opts unchanged"""
 
     target = f"{CALC}::mutinf_subsys"
-    floor = 300
+    floor = 100
 
     def call(self, cx, name, args, kwargs, node):
         if name == "entropy_subsys":
@@ -587,7 +587,7 @@ class SchmidtGap(Base):
     only when one side is trivial; reading l_1 requires that the reduced state has at least two eigenvalues"""
 
     target = f"{CALC}::schmidt_gap"
-    floor = 100
+    floor = 40
     bounded = ("entropies",)
 
     def cases(self):
@@ -694,7 +694,7 @@ class PartialTransposeNorm(Base):
     norm_trace_dense(partial_transpose(p, dims, A), isherm=True)"""
 
     target = f"{CALC}::partial_transpose_norm"
-    floor = 80
+    floor = 40
 
     def cases(self):
         return [NS(name=f"K={k},A={sname(A)},{kind}", K=k, A=A, isvec=kind == "ket")
@@ -788,7 +788,7 @@ class LognegSubsys(PairBase):
     list -- i.e. the callee is asked for the same physical bipartition A | B of the reduced state"""
 
     target = f"{CALC}::logneg_subsys"
-    floor = 500
+    floor = 100
     KS = (2, 3, 4)
 
     def call(self, cx, name, args, kwargs, node):
@@ -1249,7 +1249,7 @@ class EntCrossMatrix(Base):
        is inside the array (safety)."""
 
     target = f"{CALC}::ent_cross_matrix"
-    floor = 800
+    floor = 150
     bounded = ("decompositions-and-correlations",)
 
     def cases(self):
@@ -1844,7 +1844,7 @@ class KrausOp(Base):
     eye(d) ||_fro > 1e-12.  ValueError when exactly one of dims / where is given."""
 
     target = f"{CALC}::kraus_op"
-    floor = 150
+    floor = 70
     bounded = ("maps-and-measurement",)
 
     def cases(self):
@@ -2354,7 +2354,7 @@ class LazyPtrLinop(LazyBase):
     (shared label), no axis of A summed: the operator is the reduced state of A (subsystems in the order pi)"""
 
     target = f"{APX}::lazy_ptr_linop"
-    floor = 150
+    floor = 40
 
     def cases(self):
         out = [NS(name=f"K={k},sysa={'.'.join(map(str, t))}", K=k, sysa=t, sint=False) for k in (1, 2, 3, 4) for t in ordered_subsets(k)]
@@ -2383,7 +2383,7 @@ class LazyPtrPptLinop(LazyBase):
     columns = (ket axis if in A else bra axis) -- the reduced state of A u B partially transposed over A"""
 
     target = f"{APX}::lazy_ptr_ppt_linop"
-    floor = 400
+    floor = 100
 
     def cases(self):
         out = []
@@ -2836,8 +2836,8 @@ def provider_fdx(tier):
 
 # =====================================================================================================================
 # purify : eigenvalue i <-> eigenvector column i <-> ancilla basis state i      concurrence : the reduced pair
+# (two more E1 contracts, placed after the providers)
 # =====================================================================================================================
-# (appended after the providers; registered like the contracts above)
 
 
 class TermAcc:
